@@ -132,9 +132,8 @@ def solve_bound(leaf, box=None, form='primal', ell=0):
 
 # ------------------------------------------------------------------------------------------------
 
-def stream_circuits(ctx, rng, N):
-    for _ in range(N):
-        circ = gen_circuit(rng)
+def stream_circuits(ctx, rng, N, given=None):
+    for circ in (given if given is not None else [gen_circuit(rng) for _ in range(N)]):
         th = circ['theta']
         lam0 = float(circ['lam'][0])
         for rel in (0.5, 0.98, 1.02, 1.5):
@@ -168,7 +167,7 @@ def stream_circuits(ctx, rng, N):
                     ctx.count('circuit:bound')
                     if not close(v, gamma, 1e-4):
                         ctx.violation('exactness: level-0 %s bound %.8g of a circuit signomial differs from the closed form %.8g' % (form, v, gamma),
-                                      dict(case, form=form))
+                                      dict(case, form=form, closed_form=gamma))
                         break
 
 
@@ -208,9 +207,8 @@ def gen_one_negative(rng):
     return rm.sig_leaf(rows, c), rm.gen_box(rng, n, eqfirst=True)
 
 
-def stream_boxes(ctx, rng, N, seen_boxes):
-    for _ in range(N):
-        leaf, box = gen_one_negative(rng)
+def stream_boxes(ctx, rng, N, seen_boxes, given=None):
+    for leaf, box in (given if given is not None else [gen_one_negative(rng) for _ in range(N)]):
         seen_boxes.append((leaf, box))
         lo, hi = lipschitz_enclosure(leaf, box)
         case = {'stream': 'box', 'leaf': leaf, 'box': box, 'enclosure': [lo, hi]}
@@ -362,7 +360,7 @@ def stream_invariance(ctx, rng, N):
                     want = float(a) * v0 + float(k)
                     if not close(v1, want, 1e-4):
                         ctx.violation('scaling: bound(a f + k) = %.8g but a bound(f) + k = %.8g (a = %s, k = %s)' % (v1, want, a, k),
-                                      {'stream': 'invariance', 'leaf': leaf, 'transformed': g, 'transform': 'affine'})
+                                      {'stream': 'invariance', 'leaf': leaf, 'transformed': g, 'transform': 'affine', 'a': str(a), 'k': str(k)})
     return ech_lines
 
 
@@ -457,6 +455,7 @@ def run(ctx):
                         tags = [e['tag']]
                 ctx.violation('exactness (corpus): %s: min over the box in [%.6g, %.6g] but sage_feasibility reports infeasible' % (e['note'][:60], lo, hi),
                               {'stream': 'corpus', 'entry': e}, tags=tags)
+    common.run_regressions(ctx, 'C06', recheck)
     stream_circuits(ctx, rng, 10 if quick else 80)
     boxes = []
     stream_boxes(ctx, rng, 40 if quick else 300, boxes)
@@ -500,6 +499,48 @@ def run(ctx):
              'translation by powers of two / affine scaling of random signomials with integer exponents; ell 0 vs 1; box vs sub-box; '
              'non-trivial = every case; distinct = distinct JSON',
         trusted=TRUSTED, assumptions=ASSUME)
+
+
+def recheck(r):
+    """execute the stored input of a violation again; the violation it (still) shows, or None"""
+    import random
+    ctx, rng = common.RecCtx(), random.Random(0)
+    k = r.get('stream')
+    if k == 'circuit':
+        if 'form' in r and 'closed_form' in r:
+            s_, v_ = solve_bound(r['leaf'], form=r['form'])
+            if s_ == 'solved' and not close(v_, r['closed_form'], 1e-4):
+                return 'exactness: level-0 %s bound %.8g of a circuit signomial differs from the closed form %.8g' % (r['form'], v_, r['closed_form'])
+        else:
+            s_, v_ = solve_feas(r['leaf'])
+            if s_ == 'solved' and (v_ > -math.inf) != (r['rel'] < 1):
+                return 'exactness: circuit signomial with beta = %.4f x circuit number: sage_feasibility reports %s' % (
+                    r['rel'], 'feasible' if v_ > -math.inf else 'infeasible')
+    elif k == 'box':
+        stream_boxes(ctx, rng, 0, [], given=[(r['leaf'], r['box'])])
+    elif k == 'invariance':
+        s0, v0 = solve_bound(r['leaf'])
+        s1, v1 = solve_bound(r['transformed'])
+        if s0 == 'solved' and s1 == 'solved':
+            want = v0 if r['transform'] != 'affine' else float(F(r['a'])) * v0 + float(F(r['k']))
+            if not close(v1, want, 1e-4):
+                return 'invariance: the level-0 bound %.8g of the transformed signomial (%s) should be %.8g' % (v1, r['transform'], want)
+    elif k == 'monotone':
+        if 'sub' in r:
+            sb, vb = solve_bound(r['leaf'], r['box'])
+            ss, vs = solve_bound(r['leaf'], r['sub'])
+            if sb == 'solved' and ss == 'solved' and vs < vb - 1e-4 * max(1.0, abs(vb)):
+                return 'monotonicity: the bound over the sub-box is %.8g, below the bound %.8g over the box' % (vs, vb)
+        else:
+            s0, v0 = solve_bound(r['leaf'], ell=0)
+            s1, v1 = solve_bound(r['leaf'], ell=1)
+            if s0 == 'solved' and s1 == 'solved' and v1 < v0 - 1e-4 * max(1.0, abs(v0)) and not (math.isinf(v0) and v0 < 0):
+                return 'monotonicity: the bound decreases from %.8g (ell = 0) to %.8g (ell = 1) on R^n' % (v0, v1)
+    # violations that carry the tag of a recorded finding are that finding, not a new failure of the stored input
+    for what, _, tags in ctx.violations:
+        if not tags:
+            return what
+    return None
 
 
 def replay(obj):
